@@ -177,7 +177,8 @@ class Impl:
         base.exec = spy_exec
         if self._real_importlib is not None:
             base.importlib = SpyImportlib()
-        self.whitelist = list(base.WHITELIST)
+        import flow.record.whitelist as wlmod
+        self.whitelist = list(wlmod.WHITELIST)      # the configuration the property is relative to (not base's alias)
         self.reserved = list(base.RESERVED_FIELDS.keys())
         self.allowed_modules = {"flow.record.fieldtypes"} | {
             "flow.record.fieldtypes." + w.rpartition(".")[0] for w in self.whitelist if "." in w}
@@ -456,6 +457,24 @@ class Gen:
         """yield (route, name, fields, tag)"""
         rnd = self.rnd
         pay = trip_payloads(self.trip)
+        # 0. namespace prefixes of the whitelist tree and their list forms, FIRST (before this run constructs any honest
+        #    descriptor below such a prefix) and again right after an honest descriptor for every type below the prefix:
+        #    what importlib has loaded so far must not matter
+        wl = self.impl.whitelist
+        pfxs = dedup([".".join(w.split(".")[:k]) for w in wl for k in range(1, len(w.split(".")))])
+        forms = [f for p_ in pfxs for f in (p_, p_ + "[]") if strip_list(f) not in wl]
+        for f in forms:
+            for route in ROUTES:
+                yield route, "t/" + self.fresh(), [(f, "f")], "whitelist-prefix-before-load"
+        for p_ in pfxs:
+            below = [w for w in wl if w.startswith(p_ + ".")]
+            yield "ctor", "t/" + self.fresh(), [(w, "h%d" % i) for i, w in enumerate(below)], "honest-below-prefix"
+            for f in (p_, p_ + "[]"):
+                if strip_list(f) in wl:
+                    continue
+                for route in ROUTES:
+                    yield route, "t/" + self.fresh(), [(f, "f")], "whitelist-prefix-after-load"
+                    yield route, "t/" + self.fresh(), [(below[0], "a"), (f, "f"), ("string", "class")], "whitelist-prefix-after-load-kw"
         # 1. every hostile symbol x position x place, every route
         for sym in SYMBOLS:
             for where in ("prefix", "middle", "suffix"):
@@ -861,7 +880,7 @@ def capture_probe(ctx, impl, kf):
 def fieldtype_cases(ctx, impl, trip):
     """fieldtype(p) on hostile paths: what it resolves (importlib spy) versus the model"""
     ft = getattr(impl.base.fieldtype, "__wrapped__", impl.base.fieldtype)
-    paths = list(trip_payloads(trip)["field_type"])
+    paths = whitelist_prefixes(impl.whitelist) + list(trip_payloads(trip)["field_type"])     # prefixes first, and again below
     for w in impl.whitelist:            # make sure every namespace module of the whitelist is loaded first
         try:
             ft(w)
